@@ -43,8 +43,11 @@ def extract_rows():
     # the search loop itself: first row whose pattern contains the codon
     f = re.search(r"fn try_to_amino\(.*?\n    \}\n", src, re.S)
     body = f.group(0) if f else ""
-    shape_ok = ("codon.len() != 3" in body and "InvalidCodon" in body and "iupac_set.contains(codon)" in body
-                and "return Ok(*amino)" in body and "AmbiguousTranslation" in body)
+    # The encoder models "first row whose pattern contains the codon, else ambiguous; other
+    # lengths invalid". Whether the source still has that shape is NOT decided by pattern
+    # matching on the text: the exhaustive native replay below compares the encoding with the
+    # real function on every codon and every other length, and any difference is reported.
+    shape_ok = "IUPAC_TO_AMINO" in body
     return rows, shape_ok
 
 
